@@ -478,12 +478,24 @@ func c19run(w *report.W) {
 	}
 	ex := &explore.Explorer{Bound: devBound}
 	ndocs := 0
+	// hand-written documents first: attribute names built by expansion that end up equal to a typed field's name
+	// (after Interpolate the leftover-field map and the struct disagree about `label` / `key`)
+	extraDocs := []string{
+		"steps:\n  - command: c\n    label: real\n    \"${EXTRA}\": templated\n    \"$KK\": k2\n  - wait: ~\n    \"${EXTRA}\": w\n",
+		"env: {EXTRA: label}\n\"${EXTRA}\": top\nsteps:\n  - group: g\n    \"${EXTRA}\": gl\n    steps:\n      - command: c\n        plugins: [{\"./p\": {\"${EXTRA}\": v}}]\n",
+	}
+	extraIdx := 0
 	ex.Run = func(x *explore.X) bool {
 		g := &docgen.Gen{X: x}
 		doc := g.Pipeline()
 		text, err := docgen.Render(doc.In, "yaml-block")
 		if err != nil {
 			return true
+		}
+		if extraIdx < len(extraDocs) {
+			text = extraDocs[extraIdx]
+			doc.Descr = fmt.Sprintf("hand-written #%d (templated attribute names)", extraIdx)
+			extraIdx++
 		}
 		p, perr, pan := parsePipeline(text)
 		if pan != "" || p == nil {
@@ -529,11 +541,17 @@ func c19run(w *report.W) {
 		c19guard(w, "pipeline ["+doc.Descr+"]", &p, []c19op{
 			{"Interpolate(nil env)", false, func() string { return fmt.Sprint(p.Interpolate(nil, false)) }},
 			{"Interpolate(env)", false, func() string {
-				return fmt.Sprint(p.Interpolate(verifexport.NewEnv(true, map[string]string{"A": "1"}), true))
+				return fmt.Sprint(p.Interpolate(verifexport.NewEnv(true, map[string]string{"A": "1", "EXTRA": "label", "KK": "key"}), true))
 			}},
 			{"SignSteps", false, func() string {
 				return fmt.Sprint(signature.SignSteps(sigCtx, p.Steps, k.Sign, "repo", signature.WithEnv(p.Env.ToMap())) != nil)
 			}},
+		})
+		// the observers once more, now on the interpolated and signed pipeline
+		c19guard(w, "interpolated + signed pipeline ["+doc.Descr+"]", &p, []c19op{
+			{"json.Marshal", true, func() string { b, _ := json.Marshal(p); return string(b) }},
+			{"yaml.Marshal", true, func() string { b, _ := yaml.Marshal(p); return string(b) }},
+			{"json.Marshal again", true, func() string { b, _ := json.Marshal(p); return string(b) }},
 		})
 		// verification is an observer of the signed step
 		for _, cs := range cmds {
@@ -563,6 +581,25 @@ func c19run(w *report.W) {
 		return !w.Expired()
 	}
 	ex.Explore()
+	// the hand-written documents again, interpolated directly with the environment that makes the names collide
+	for i, text := range extraDocs {
+		p, _, pan := parsePipeline(text)
+		if pan != "" || p == nil {
+			w.HarnessError("hand-written document #%d does not parse", i)
+			break
+		}
+		if err := p.Interpolate(verifexport.NewEnv(true, map[string]string{"EXTRA": "label", "KK": "key"}), false); err != nil {
+			w.HarnessError("hand-written document #%d: %v", i, err)
+			break
+		}
+		w.P.States++
+		w.P.Nontrivial++
+		// (JSON only: yaml.Marshal of such a pipeline panics on the pinned tree - known finding of C02, DESIGN §7 no. 12)
+		c19guard(w, fmt.Sprintf("interpolated pipeline, hand-written #%d (templated attribute names equal to typed field names)", i), &p, []c19op{
+			{"json.Marshal", true, func() string { b, _ := json.Marshal(p); return string(b) }},
+			{"json.Marshal again", true, func() string { b, _ := json.Marshal(p); return string(b) }},
+		})
+	}
 	w.P.Bounds["pipelines"] = fmt.Sprintf("%d generated documents (<=%d deviations)", ndocs, devBound)
 
 	// ---- 1c. key sets: marshalled form unchanged by Validate / Verify / LoadKey
@@ -648,7 +685,7 @@ func init() {
 		ID:      "C19",
 		Workers: 1,
 		Rule: "(1) state invariant by deep snapshot: in every implementation state of the ordered map reachable in <=4/5 operations, for every generated pipeline (<=1/2 deviations), every signed command step and three key sets, " +
-			"each observer (Len/Get/Contains/Range/ToMap/Marshal*/Equal/TransformValues; json/yaml Marshal, FullSource, SignedFields, ValuesForFields, Sign, Matrix.IsEmpty, a rejected matrix permutation; Verify; Validate) (also on maps of 4..64 keys half of whose slots are tombstones, and on the result of TransformValues being edited) leaves the " +
+			"each observer (Len/Get/Contains/Range/ToMap/Marshal*/Equal/TransformValues; json/yaml Marshal, FullSource, SignedFields, ValuesForFields, Sign, Matrix.IsEmpty, a rejected matrix permutation; Verify; Validate) (also on maps of 4..64 keys half of whose slots are tombstones, and on the result of TransformValues being edited) (marshalling also after Interpolate + SignSteps, incl. two documents whose templated attribute names expand to typed field names) leaves the " +
 			"observed object's memory unchanged, and NO operation (including Parse, Interpolate, SignSteps) changes any package-level variable of any repository package (table generated by the instrumenter); " +
 			"(2) cooperative scheduler: 2-3 harness threads (full lifecycles on distinct documents with distinct keys; observers of one shared tombstoned map; readers of one shared signed pipeline) interleaved at operation " +
 			"boundaries and at every instrumented statement that touches a package-level variable or writes through a field / index / pointer inside the library, all schedules with <=k preemptions, every thread's results == its solo " +
